@@ -7,7 +7,7 @@ ONE = G.ONE
 U64_MAX = G.U64_MAX
 OPN = {0: "clock", 1: "deposit", 2: "withdraw", 3: "borrow", 4: "repay", 7: "close_balance", 10: "accrue",
        16: "collect_fees", 17: "liquidate", 18: "bankruptcy", 19: "set_price",
-       20: "fixture_risk_admin", 21: "fixture_bank_flags"}
+       30: "fixture_risk_admin", 31: "fixture_bank_flags"}
 HB_EXTRA = 13  # tokens after the 38 bankops tokens, before e-mode entries
 
 
@@ -263,12 +263,12 @@ def gen_case_scenario(rng, max_ops=26):
         elif r < 0.99:
             # token-less write-off (sanctioned exception of C01): flag the debt bank, make the borrower's authority the
             # group's risk admin (or not), then repay everything / a part
-            ops.append([21, d, banks[d][12] | 32])
+            ops.append([31, d, banks[d][12] | 32])
             if rng.random() < 0.8:
-                ops.append([20, a])
+                ops.append([30, a])
             ops.append([4, a, d, rng.choice([1, bamt]), 1 if rng.random() < 0.8 else 0])
             if rng.random() < 0.5:
-                ops.append([20, 255])
+                ops.append([30, 255])
             if rng.random() < 0.5:
                 ops.append([2, 0, d, rng.choice([1, big // 2, big]), rng.randrange(2)])
         else:
@@ -291,7 +291,7 @@ def gen_case_scenario(rng, max_ops=26):
 
 
 # ---------------------------------------------------------------------------------------------
-OPLEN = {0: 2, 1: 5, 2: 5, 3: 4, 4: 5, 7: 3, 10: 2, 16: 2, 17: 6, 18: 3, 19: 3, 20: 2, 21: 3}
+OPLEN = {0: 2, 1: 5, 2: 5, 3: 4, 4: 5, 7: 3, 10: 2, 16: 2, 17: 6, 18: 3, 19: 3, 30: 2, 31: 3}
 
 
 def parse_case(line):
